@@ -12,6 +12,8 @@ from ..program import AnalysisError, FuncInfo, Program, NO
 from ..effects import get_effects
 
 SIGNS = frozenset({"neg", "zero", "pos"})
+# propagators whose declared triggers are narrower than MIN|MAX on the pinned tree (dependences derived and checked on every run)
+KNOWN_NARROW = {"compute_domains_max_leq", "compute_domains_min_geq", "compute_domains_affine_leq", "compute_domains_affine_geq", "compute_domains_no_sub_cycle"}
 
 
 # ------------------------------------------------------------------ registry triples
@@ -224,7 +226,17 @@ def trigger_spec(prog: Program, fn: FuncInfo) -> TriggerSpec:
                 if isinstance(it, ast.Call) and isinstance(it.func, ast.Name) and it.func.id == "enumerate" and len(it.args) == 1 \
                         and ast.unparse(it.args[0]) == f"{pname}[:-1]" and isinstance(s.target, ast.Tuple) and len(s.target.elts) == 2:
                     lp = (s.target.elts[0].id, s.target.elts[1].id)
-                if lp is None:
+                if lp is None and isinstance(it, ast.Call) and isinstance(it.func, ast.Name) and it.func.id == "range" and len(it.args) == 1 \
+                        and isinstance(it.args[0], ast.Name) and it.args[0].id == nname and isinstance(s.target, ast.Name) and loop is None:
+                    # for i in range(n): arr[i] = M  -- every position
+                    for b in s.body:
+                        if isinstance(b, ast.Assign) and len(b.targets) == 1 and isinstance(b.targets[0], ast.Subscript) and isinstance(b.targets[0].value, ast.Name) \
+                                and b.targets[0].value.id == arr and isinstance(b.targets[0].slice, ast.Name) and b.targets[0].slice.id == s.target.id \
+                                and _fold_mask(prog, fn, b.value) is not None:
+                            spec.overrides.append(("ALL", signs, _fold_mask(prog, fn, b.value)))
+                        else:
+                            spec.problems.append(f"unrecognised statement in a range(n) loop: {ast.unparse(b)}")
+                elif lp is None:
                     spec.problems.append(f"unrecognised loop {ast.unparse(s.iter)}")
                 else:
                     walk(s.body, signs, lp)
@@ -546,12 +558,11 @@ def rule_triggers(ctx: Ctx, prog: Program) -> None:
         ctx.fn(c.fq, t.fq)
         spec = trigger_spec(prog, t)
         if spec.problems:
-            ctx.violation("R-TRIGGERS", t.path, t.name, "trigger-shape", t.loc(),
-                          f"{t.name}: the declared wake-up events cannot be read as a per-position mask ({spec.problems[0]}); "
-                          "wake-up sufficiency cannot be established")
-            continue
-        u = spec.uniform()
-        if u is not None and (u & FULL) == FULL:
+            # an idiom the reader does not know is the analyser's problem, not a verdict on the code
+            raise AnalysisError(f"{t.name}: the declared wake-up events cannot be read as a per-position mask ({spec.problems[0]})")
+        everywhere = [mm for sg in sorted(SIGNS) for mm, _ in _mask_for(spec, "ALL", sg)] + [mm for sg in sorted(SIGNS) for mm, _ in _mask_for(spec, "COEF", sg)
+                                                                                            if any(oc == "COEF" for oc, _, _ in spec.overrides)]
+        if all(mm is not None and (mm & FULL) == FULL for mm in everywhere):
             n_full += 1
             ctx.ok("R-TRIGGERS", f"{c.name}: watches MIN and MAX of every variable (sufficient for any bound dependence)", nontrivial=False)
             continue
@@ -559,6 +570,9 @@ def rule_triggers(ctx: Ctx, prog: Program) -> None:
         n_narrow += 1
         da = DepAnalysis(prog, c)
         da.run()
+        if (da.problems or da.inlined) and c.name in KNOWN_NARROW:
+            why = (da.problems or [f"calls {sorted(da.inlined)}"])[0]
+            raise AnalysisError(f"{c.name}: its triggers are narrower than MIN|MAX (as on the pinned tree) but its bound dependences can no longer be derived ({why})")
         if da.problems or da.inlined:
             why = (da.problems or [f"calls {sorted(da.inlined)}"])[0]
             ctx.violation("R-TRIGGERS", c.path, c.name, "narrow-triggers-unanalysable", t.loc(),
